@@ -947,7 +947,10 @@ func (b *BaseStore) recalculateReplicationMax(max int) {
 	if opLogLen := b.OpLog().Len(); opLogLen > max {
 		max = opLogLen
 
-	} else if replMax := b.ReplicationStatus().GetMax(); replMax > max {
+	}
+
+	// never below the previous maximum, whichever of the two above was larger
+	if replMax := b.ReplicationStatus().GetMax(); replMax > max {
 		max = replMax
 	}
 
